@@ -116,6 +116,8 @@ func checkC15(c *Ctx) {
 	})
 	lbOvfMode = false
 	c.Notes = append(c.Notes, fmt.Sprintf("B-IDX: %d sites, %d compiler, %d LinBounds, %d unproven", st.sites, st.compiler, st.lin, st.unproved))
+	c15PeerIndexed(c, scope, parsers)
+	c06Suite(c) // "unsupported versions, suites": a suite or version the endpoint did not offer is refused
 	c15MsgType(c, scope)
 	before := len(c.Obls)
 	c15Complete(c, scope)
@@ -613,4 +615,94 @@ func nonNilReachesSuccess(p *Prog, f *ssa.Function, call *ssa.Call, E ssa.Value,
 	}
 	walk(call.Block(), nil, map[ssa.Value]bool{E: true}, instrIndex(call)+1)
 	return res
+}
+
+// c15PeerIndexed: everywhere else in the handshake closure, an index, slice bound or allocation size that is computed
+// from a field of a received handshake message (a *...Msg struct) is in bounds for every value the peer can send.
+func c15PeerIndexed(c *Ctx, scope []*ssa.Function, done []*ssa.Function) {
+	have := map[*ssa.Function]bool{}
+	for _, f := range done {
+		have[f] = true
+	}
+	fromMsg := func(v ssa.Value) bool {
+		seen := map[ssa.Value]bool{}
+		var walk func(v ssa.Value, d int) bool
+		walk = func(v ssa.Value, d int) bool {
+			if v == nil || d > 10 || seen[v] {
+				return false
+			}
+			seen[v] = true
+			switch x := v.(type) {
+			case *ssa.UnOp:
+				if x.Op == token.MUL {
+					if fa, ok := x.X.(*ssa.FieldAddr); ok {
+						t := strings.TrimPrefix(fa.X.Type().String(), "*")
+						if strings.HasSuffix(t, "Msg") || strings.HasSuffix(t, "MsgGM") {
+							return true
+						}
+						return false
+					}
+					if ia, ok := x.X.(*ssa.IndexAddr); ok {
+						return walk(ia.X, d+1)
+					}
+					return false
+				}
+				return walk(x.X, d+1)
+			case *ssa.BinOp:
+				return walk(x.X, d+1) || walk(x.Y, d+1)
+			case *ssa.Convert:
+				return walk(x.X, d+1)
+			case *ssa.ChangeType:
+				return walk(x.X, d+1)
+			case *ssa.Phi:
+				for _, e := range x.Edges {
+					if walk(e, d+1) {
+						return true
+					}
+				}
+			case *ssa.Call:
+				if bi, ok := x.Call.Value.(*ssa.Builtin); ok && (bi.Name() == "len" || bi.Name() == "cap") {
+					return walk(x.Call.Args[0], d+1)
+				}
+			case *ssa.Slice:
+				return walk(x.X, d+1)
+			}
+			return false
+		}
+		return walk(v, 0)
+	}
+	var fs []*ssa.Function
+	for _, f := range scope {
+		if have[f] || f.Name() == "marshal" || f.Name() == "unmarshal" || f.Name() == "equal" {
+			continue
+		}
+		pk := f.Pkg
+		if pk == nil && f.Parent() != nil {
+			pk = f.Parent().Pkg
+		}
+		if pk == nil || rel(pk.Pkg.Path()) != "gmtls" {
+			continue
+		}
+		fs = append(fs, f)
+	}
+	bidxFilter = func(in ssa.Instruction) bool {
+		switch x := in.(type) {
+		case *ssa.IndexAddr:
+			return fromMsg(x.Index)
+		case *ssa.Index:
+			return fromMsg(x.Index)
+		case *ssa.Lookup:
+			return false
+		case *ssa.Slice:
+			return fromMsg(x.Low) || fromMsg(x.High) || fromMsg(x.Max)
+		case *ssa.MakeSlice:
+			return fromMsg(x.Len) || fromMsg(x.Cap)
+		}
+		return false
+	}
+	defer func() { bidxFilter = nil }()
+	lbOvfMode = true
+	st := bidx(c, "B-IDX", fs, map[string]string{})
+	lbOvfMode = false
+	c.Notes = append(c.Notes, fmt.Sprintf("B-IDX (bounds computed from received message fields, rest of the closure): %d sites, %d compiler, %d LinBounds, %d unproven", st.sites, st.compiler, st.lin, st.unproved))
 }
